@@ -100,3 +100,11 @@ PROPS['C20'] = A(level='exploration', engine='enumerate', harnesses=[A(src='harn
     rule='cases = every byte string of the stated alphabets up to the length bound (odometer enumeration), each distinct; non-trivial = all; inputs live in exact-size buffers ending at a PROT_NONE page; oracle = termination, no ASan/UBSan report (signed overflow included), no fault, sink/target canaries intact, va_list cursor within the slots the directives account for; stopping in frg_panic is a legal outcome',
     technique='exhaustive enumeration of all inputs up to a length bound executed on the real parsers under ASan/UBSan with guard pages',
     assumptions=TRUST + ['x86-64 SysV va_list layout'])
+
+def SCHED(src, **kw):
+    return [A(src=src, san='asan', sched=True, **kw), A(src=src, san='tsan', sched=True, **kw)]
+PROPS['C12'] = A(level='model_checking', engine='sched', harnesses=SCHED('harness/c12_spin.cpp') + [A(src='harness/c12_guards.cpp', san='asan')], budget=A(quick=150, thorough=1500),
+    bounds=A(quick='ticket_spinlock and simple_spinlock, every __atomic builtin and spin hint a scheduling point: 2 threads x 1 round: ALL interleavings; 2 threads x 2 rounds: preemption bound 3; 3 threads x 1 round: bound 2; each explored twice (ASan+vector clocks, and ThreadSanitizer). Guards: unique_lock/shared_lock/QS lock_guard operation histories to fixpoint',
+             thorough='2x2 all interleavings, 3x1 bound 3, 4x1 and 3x2 bound 2'),
+    technique='stateless model checking: exhaustive preemption-bounded enumeration of thread schedules of the real implementation under a serialising scheduler (CHESS style), vector-clock happens-before oracle, ThreadSanitizer over the same schedules; explicit-state BFS for the guards',
+    assumptions=TRUST + ['interleaving (sequentially consistent) semantics; memory-order defects are caught as missing happens-before edges (vector clocks, TSan), not by enumerating weak-memory executions'])
